@@ -10,6 +10,6 @@ for n in sorted(os.listdir('seeded')):
 PY
 while read n props; do
   echo "=== $n $props"
-  python3 tools/mut_eval.py seeded/$n $n $props | grep -E '"caught_by"|"caught_with_failing_input"|VIOLATION|tier=' 
+  python3 tools/mut_eval.py "$PWD/seeded/$n" $n $props | grep -E '"caught_by"|"caught_with_failing_input"|VIOLATION|tier=' 
 done < /tmp/reeval_list.$$
 rm -f /tmp/reeval_list.$$
